@@ -51,6 +51,8 @@ GtFOK(e) ==
             \* e(G1, G2) generates a group of order r inside the cyclotomic subgroup
             /\ (e.x.a = 1 /\ e.x.b = 1) => (e.out = g /\ g # DOne /\ DPowI(g, r, T) = DOne /\ InCyclo(g, T))
        [] e.op = "identity" -> e.out = DOne
+       [] e.op = "sum0" -> e.out = DOne
+       [] e.op = "sum1" -> e.out = x
        [] e.op = "is_identity" -> e.out = (x = DOne)
        [] e.op = "neg" -> e.out = DConj(x, T) /\ DMul(x, e.out, T) = DOne
        [] e.op = "double" -> e.out = DMul(x, x, T)
